@@ -3,6 +3,7 @@ package sim
 import (
 	"crypto/aes"
 	"crypto/cipher"
+	"crypto/des"
 	"crypto/rand"
 	"crypto/rsa"
 	"crypto/sha1"
@@ -32,16 +33,27 @@ const (
 
 var DataAlgs = []string{AES128GCM, AES192GCM, AES256GCM, AES128CBC, AES256CBC}
 
+const TripleDESCBC = "http://www.w3.org/2001/04/xmlenc#tripledes-cbc"
+
 func KeyLen(alg string) int {
 	switch alg {
 	case AES128GCM, AES128CBC:
 		return 16
-	case AES192GCM:
+	case AES192GCM, TripleDESCBC:
 		return 24
 	case AES256GCM, AES256CBC:
 		return 32
 	}
 	return 16
+}
+
+// KnownDataAlg reports whether the harness implements the XML-Enc block algorithm with that identifier.
+func KnownDataAlg(alg string) bool {
+	switch alg {
+	case AES128GCM, AES192GCM, AES256GCM, AES128CBC, AES256CBC, TripleDESCBC, "http://www.w3.org/2001/04/xmlenc#aes192-cbc":
+		return true
+	}
+	return false
 }
 
 func IsGCM(alg string) bool { return strings.HasSuffix(alg, "-gcm") }
@@ -117,7 +129,13 @@ func WrapKey(to *Cert, keyAlg string, digest *string, sym []byte) ([]byte, error
 
 // EncryptData encrypts plaintext with the XML-Enc block algorithm alg under key.
 func EncryptData(alg string, key, plaintext []byte, filler int) ([]byte, error) {
-	blk, err := aes.NewCipher(key)
+	var blk cipher.Block
+	var err error
+	if alg == TripleDESCBC {
+		blk, err = des.NewTripleDESCipher(key) // the real algorithm behind the identifier, not AES under its name
+	} else {
+		blk, err = aes.NewCipher(key)
+	}
 	if err != nil {
 		return nil, err
 	}
